@@ -3,6 +3,7 @@ package smt
 import (
 	"fmt"
 	"math/big"
+	"strings"
 
 	"gosym/term"
 )
@@ -16,12 +17,15 @@ import (
 
 type intInfo struct {
 	lo, hi *big.Int
+	tz     int // the value is known to be a multiple of 2^tz
 }
 
 var (
 	bigZero = big.NewInt(0)
 	bigOne  = big.NewInt(1)
 )
+
+func ii2(lo, hi *big.Int) intInfo { return intInfo{lo: lo, hi: hi} }
 
 func pow2(w int) *big.Int { return new(big.Int).Lsh(bigOne, uint(w)) }
 
@@ -51,12 +55,20 @@ func (s *Solver) iref(t *term.Term) string {
 func (s *Solver) iinfo(t *term.Term) intInfo {
 	if t.Op == term.OpConst {
 		v := new(big.Int).SetUint64(t.Val)
-		return intInfo{v, v}
+		tz := 0
+		if t.Val == 0 {
+			tz = 64
+		} else {
+			for u := t.Val; u&1 == 0; u >>= 1 {
+				tz++
+			}
+		}
+		return intInfo{lo: v, hi: v, tz: tz}
 	}
 	if ii, ok := s.ints[t.ID]; ok {
 		return ii
 	}
-	return intInfo{bigZero, new(big.Int).Sub(pow2(t.S.W), bigOne)}
+	return ii2(bigZero, new(big.Int).Sub(pow2(t.S.W), bigOne))
 }
 
 // signedExpr renders the two's-complement signed value of a (width w) and its interval.
@@ -80,13 +92,13 @@ func wrap(expr string, lo, hi *big.Int, w int) (string, intInfo) {
 	full := pow2(w)
 	max := new(big.Int).Sub(full, bigOne)
 	if lo.Sign() >= 0 && hi.Cmp(max) <= 0 {
-		return expr, intInfo{lo, hi}
+		return expr, ii2(lo, hi)
 	}
 	// one-sided shifts avoid mod when the value is known to be within one period
 	if lo.Sign() < 0 && new(big.Int).Neg(lo).Cmp(full) <= 0 && hi.Sign() < 0 {
-		return fmt.Sprintf("(+ %s %s)", expr, full), intInfo{new(big.Int).Add(lo, full), new(big.Int).Add(hi, full)}
+		return fmt.Sprintf("(+ %s %s)", expr, full), ii2(new(big.Int).Add(lo, full), new(big.Int).Add(hi, full))
 	}
-	return fmt.Sprintf("(mod %s %s)", expr, full), intInfo{bigZero, max}
+	return fmt.Sprintf("(mod %s %s)", expr, full), ii2(bigZero, max)
 }
 
 func constOf(t *term.Term) (*big.Int, bool) {
@@ -156,14 +168,19 @@ func (s *Solver) defineIntTerm(x *term.Term) error {
 		}
 		s.send(fmt.Sprintf("(declare-const %s_raw Int)", x.Name))
 		s.send(fmt.Sprintf("(define-fun %s () Int (mod %s_raw %s))", x.Name, x.Name, pow2(x.S.W)))
-		s.ints[x.ID] = intInfo{bigZero, new(big.Int).Sub(pow2(x.S.W), bigOne)}
+		s.ints[x.ID] = ii2(bigZero, new(big.Int).Sub(pow2(x.S.W), bigOne))
 		return nil
 	}
 	w := x.S.W
 	def := func(expr string, ii intInfo) {
 		s.send(fmt.Sprintf("(define-fun t%d () Int %s)", x.ID, expr))
+		if ii.tz > w {
+			ii.tz = w
+		}
 		s.ints[x.ID] = ii
 	}
+	withTz := func(ii intInfo, tz int) intInfo { ii.tz = tz; return ii }
+	_ = withTz
 	defB := func(expr string) {
 		s.send(fmt.Sprintf("(define-fun t%d () Bool %s)", x.ID, expr))
 	}
@@ -191,17 +208,17 @@ func (s *Solver) defineIntTerm(x *term.Term) error {
 		if b.hi.Cmp(hi) > 0 {
 			hi = b.hi
 		}
-		def("(ite "+s.iref(x.Args[0])+" "+s.iref(x.Args[1])+" "+s.iref(x.Args[2])+")", intInfo{lo, hi})
+		def("(ite "+s.iref(x.Args[0])+" "+s.iref(x.Args[1])+" "+s.iref(x.Args[2])+")", withTz(ii2(lo, hi), min(a.tz, b.tz)))
 	case term.OpBvAdd:
 		ra, a := arg(0)
 		rb, b := arg(1)
 		e, ii := wrap("(+ "+ra+" "+rb+")", new(big.Int).Add(a.lo, b.lo), new(big.Int).Add(a.hi, b.hi), w)
-		def(e, ii)
+		def(e, withTz(ii, min(a.tz, b.tz)))
 	case term.OpBvSub:
 		ra, a := arg(0)
 		rb, b := arg(1)
 		e, ii := wrap("(- "+ra+" "+rb+")", new(big.Int).Sub(a.lo, b.hi), new(big.Int).Sub(a.hi, b.lo), w)
-		def(e, ii)
+		def(e, withTz(ii, min(a.tz, b.tz)))
 	case term.OpBvNeg:
 		ra, a := arg(0)
 		e, ii := wrap("(- "+ra+")", new(big.Int).Neg(a.hi), new(big.Int).Neg(a.lo), w)
@@ -209,7 +226,7 @@ func (s *Solver) defineIntTerm(x *term.Term) error {
 	case term.OpBvNot:
 		ra, a := arg(0)
 		max := new(big.Int).Sub(pow2(w), bigOne)
-		def(fmt.Sprintf("(- %s %s)", max, ra), intInfo{new(big.Int).Sub(max, a.hi), new(big.Int).Sub(max, a.lo)})
+		def(fmt.Sprintf("(- %s %s)", max, ra), ii2(new(big.Int).Sub(max, a.hi), new(big.Int).Sub(max, a.lo)))
 	case term.OpBvMul:
 		// one operand constant; the product is taken over the *signed* values when an operand may be
 		// "negative" (two's complement), which keeps small negative numbers small
@@ -231,7 +248,13 @@ func (s *Solver) defineIntTerm(x *term.Term) error {
 		p1, p2 := new(big.Int).Mul(slo, c), new(big.Int).Mul(shi, c)
 		lo, hi := minmax4(p1, p2, p1, p2)
 		e, ii := wrap(fmt.Sprintf("(* %s %s)", dec(c), sv), lo, hi, w)
-		def(e, ii)
+		ctz := 0
+		if c.Sign() != 0 {
+			ctz = int(new(big.Int).Abs(c).TrailingZeroBits())
+		} else {
+			ctz = w
+		}
+		def(e, withTz(ii, s.iinfo(x.Args[vi]).tz+ctz))
 	case term.OpBvUDiv, term.OpBvURem:
 		c, ok := constOf(x.Args[1])
 		if !ok || c.Sign() == 0 {
@@ -239,13 +262,13 @@ func (s *Solver) defineIntTerm(x *term.Term) error {
 		}
 		ra, a := arg(0)
 		if x.Op == term.OpBvUDiv {
-			def(fmt.Sprintf("(div %s %s)", ra, c), intInfo{new(big.Int).Div(a.lo, c), new(big.Int).Div(a.hi, c)})
+			def(fmt.Sprintf("(div %s %s)", ra, c), ii2(new(big.Int).Div(a.lo, c), new(big.Int).Div(a.hi, c)))
 		} else {
 			hi := new(big.Int).Sub(c, bigOne)
 			if a.hi.Cmp(hi) < 0 {
 				hi = a.hi
 			}
-			def(fmt.Sprintf("(mod %s %s)", ra, c), intInfo{bigZero, hi})
+			def(fmt.Sprintf("(mod %s %s)", ra, c), ii2(bigZero, hi))
 		}
 	case term.OpBvSDiv, term.OpBvSRem:
 		c, ok := constOf(x.Args[1])
@@ -290,97 +313,75 @@ func (s *Solver) defineIntTerm(x *term.Term) error {
 			e, ii := wrap(r, rlo, rhi, w)
 			def(e, ii)
 		}
-	case term.OpBvAnd:
-		ci, vi := 0, 1
-		cu, ok := uint64(0), false
-		if x.Args[0].IsConst() {
-			cu, ok = x.Args[0].Val, true
-		} else if x.Args[1].IsConst() {
-			cu, ok, ci, vi = x.Args[1].Val, true, 1, 0
-		}
-		_ = ci
-		if !ok {
-			// a & b of two symbolic values: sound over-approximation - some value between 0 and
-			// min(a, b) (a "holds" verdict stays valid; a counterexample is confirmed by replay)
-			ra, a := arg(0)
-			rb, b := arg(1)
-			s.send(fmt.Sprintf("(declare-const t%d_raw Int)", x.ID))
-			hi := a.hi
-			if b.hi.Cmp(hi) < 0 {
-				hi = b.hi
-			}
-			def(fmt.Sprintf("(ite (and (<= 0 t%d_raw) (<= t%d_raw %s) (<= t%d_raw %s)) t%d_raw 0)", x.ID, x.ID, ra, x.ID, rb, x.ID), intInfo{bigZero, hi})
-			return nil
-		}
-		rv, v := s.iref(x.Args[vi]), s.iinfo(x.Args[vi])
-		if k, isLow := lowMask(cu); isLow {
-			p := pow2(k)
-			hi := new(big.Int).Sub(p, bigOne)
-			if v.hi.Cmp(hi) <= 0 {
-				def(rv, v)
+	case term.OpBvAnd, term.OpBvOr, term.OpBvXor:
+		return s.defineBitop(x)
+	case term.OpBvShl, term.OpBvLshr:
+		ra, a := arg(0)
+		if !x.Args[1].IsConst() {
+			// symbolic amount: case split over the feasible amounts (interval of the amount, at most w)
+			rk, k := arg(1)
+			lo, hi := 0, w
+			if k.lo.IsInt64() && k.lo.Int64() < int64(w) {
+				lo = int(k.lo.Int64())
 			} else {
-				def(fmt.Sprintf("(mod %s %s)", rv, p), intInfo{bigZero, hi})
+				lo = w
 			}
-			return nil
-		}
-		if j, k, isField := field(cu); isField {
-			pj, pk := pow2(j), pow2(k)
-			if v.hi.Cmp(pj) < 0 {
-				def("0", intInfo{bigZero, bigZero})
-				return nil
+			if k.hi.IsInt64() && k.hi.Int64() < int64(w) {
+				hi = int(k.hi.Int64())
 			}
-			def(fmt.Sprintf("(* %s (mod (div %s %s) %s))", pj, rv, pj, pk), intInfo{bigZero, new(big.Int).SetUint64(cu)})
-			return nil
-		}
-		return fmt.Errorf("integer back end: bit-and with mask %#x", cu)
-	case term.OpBvOr, term.OpBvXor:
-		// only when the operands cannot overlap: one is below 2^j, the other a multiple of 2^j
-		ra, a := arg(0)
-		rb, b := arg(1)
-		disjoint := func(small intInfo, big_ *term.Term) bool {
-			if big_.Op == term.OpBvShl && big_.Args[1].IsConst() {
-				return small.hi.Cmp(pow2(int(big_.Args[1].Val))) < 0
+			expr := "0" // amount >= w
+			rlo, rhi := bigZero, bigZero
+			if hi < w {
+				expr = ""
 			}
-			if big_.IsConst() && big_.Val != 0 {
-				j := 0
-				for v := big_.Val; v&1 == 0; v >>= 1 {
-					j++
+			first := true
+			for i := hi; i >= lo; i-- {
+				if i >= w {
+					continue
 				}
-				return small.hi.Cmp(pow2(j)) < 0
+				p := pow2(i)
+				var e string
+				var ii intInfo
+				if x.Op == term.OpBvShl {
+					e, ii = wrap(fmt.Sprintf("(* %s %s)", p, ra), new(big.Int).Mul(a.lo, p), new(big.Int).Mul(a.hi, p), w)
+				} else {
+					e, ii = fmt.Sprintf("(div %s %s)", ra, p), ii2(new(big.Int).Div(a.lo, p), new(big.Int).Div(a.hi, p))
+				}
+				if expr == "" {
+					expr = e
+					rlo, rhi = ii.lo, ii.hi
+				} else {
+					expr = fmt.Sprintf("(ite (= %s %d) %s %s)", rk, i, e, expr)
+					if first && hi >= w {
+						rlo, rhi = bigZero, ii.hi
+					}
+					if ii.lo.Cmp(rlo) < 0 {
+						rlo = ii.lo
+					}
+					if ii.hi.Cmp(rhi) > 0 {
+						rhi = ii.hi
+					}
+				}
+				first = false
 			}
-			return false
-		}
-		if disjoint(a, x.Args[1]) || disjoint(b, x.Args[0]) {
-			e, ii := wrap("(+ "+ra+" "+rb+")", new(big.Int).Add(a.lo, b.lo), new(big.Int).Add(a.hi, b.hi), w)
-			def(e, ii)
+			if expr == "" {
+				expr = "0"
+			}
+			def(expr, ii2(rlo, rhi))
 			return nil
-		}
-		return fmt.Errorf("integer back end: bit-or/xor of overlapping values")
-	case term.OpBvShl:
-		if !x.Args[1].IsConst() {
-			return fmt.Errorf("integer back end: shift by a symbolic amount")
 		}
 		k := int(x.Args[1].Val)
 		if k >= w {
-			def("0", intInfo{bigZero, bigZero})
+			def("0", ii2(bigZero, bigZero))
 			return nil
 		}
-		ra, a := arg(0)
 		p := pow2(k)
-		e, ii := wrap(fmt.Sprintf("(* %s %s)", p, ra), new(big.Int).Mul(a.lo, p), new(big.Int).Mul(a.hi, p), w)
-		def(e, ii)
-	case term.OpBvLshr:
-		if !x.Args[1].IsConst() {
-			return fmt.Errorf("integer back end: shift by a symbolic amount")
+		if x.Op == term.OpBvShl {
+			e, ii := wrap(fmt.Sprintf("(* %s %s)", p, ra), new(big.Int).Mul(a.lo, p), new(big.Int).Mul(a.hi, p), w)
+			def(e, withTz(ii, a.tz+k))
+		} else {
+			def(fmt.Sprintf("(div %s %s)", ra, p), ii2(new(big.Int).Div(a.lo, p), new(big.Int).Div(a.hi, p)))
 		}
-		k := int(x.Args[1].Val)
-		if k >= w {
-			def("0", intInfo{bigZero, bigZero})
-			return nil
-		}
-		ra, a := arg(0)
-		p := pow2(k)
-		def(fmt.Sprintf("(div %s %s)", ra, p), intInfo{new(big.Int).Div(a.lo, p), new(big.Int).Div(a.hi, p)})
 	case term.OpBvAshr:
 		if !x.Args[1].IsConst() {
 			return fmt.Errorf("integer back end: shift by a symbolic amount")
@@ -417,15 +418,15 @@ func (s *Solver) defineIntTerm(x *term.Term) error {
 			lo, hi = new(big.Int).Div(a.lo, pq), new(big.Int).Div(a.hi, pq)
 		}
 		if hi.Cmp(pn) < 0 {
-			def(expr, intInfo{lo, hi})
+			def(expr, ii2(lo, hi))
 		} else {
-			def(fmt.Sprintf("(mod %s %s)", expr, pn), intInfo{bigZero, new(big.Int).Sub(pn, bigOne)})
+			def(fmt.Sprintf("(mod %s %s)", expr, pn), ii2(bigZero, new(big.Int).Sub(pn, bigOne)))
 		}
 	case term.OpConcat:
 		ra, a := arg(0)
 		rb, b := arg(1)
 		p := pow2(x.Args[1].S.W)
-		def(fmt.Sprintf("(+ (* %s %s) %s)", p, ra, rb), intInfo{new(big.Int).Add(new(big.Int).Mul(a.lo, p), b.lo), new(big.Int).Add(new(big.Int).Mul(a.hi, p), b.hi)})
+		def(fmt.Sprintf("(+ (* %s %s) %s)", p, ra, rb), ii2(new(big.Int).Add(new(big.Int).Mul(a.lo, p), b.lo), new(big.Int).Add(new(big.Int).Mul(a.hi, p), b.hi)))
 	case term.OpBvUlt:
 		defB("(< " + s.iref(x.Args[0]) + " " + s.iref(x.Args[1]) + ")")
 	case term.OpBvUle:
@@ -442,4 +443,213 @@ func (s *Solver) defineIntTerm(x *term.Term) error {
 		return fmt.Errorf("integer back end: unsupported operation %s", x.OpName())
 	}
 	return nil
+}
+
+// bitsExpr renders, for a value below 2^w, the Bool expression of each of its w bits.
+func bitsExpr(ref string, w int) []string {
+	out := make([]string, w)
+	for i := 0; i < w; i++ {
+		if i == w-1 {
+			out[i] = fmt.Sprintf("(>= %s %s)", ref, pow2(i))
+		} else {
+			out[i] = fmt.Sprintf("(>= (mod %s %s) %s)", ref, pow2(i+1), pow2(i))
+		}
+	}
+	return out
+}
+
+func maxBig(a, b *big.Int) *big.Int {
+	if a.Cmp(b) >= 0 {
+		return a
+	}
+	return b
+}
+
+func minBig(a, b *big.Int) *big.Int {
+	if a.Cmp(b) <= 0 {
+		return a
+	}
+	return b
+}
+
+// smallBitWidth: widths up to this are decomposed into bits exactly.
+const smallBitWidth = 16
+
+// defineBitop renders and/or/xor: with a constant mask as arithmetic on contiguous fields;
+// narrow values bit by bit (exact); wide symbolic values exactly where the operands provably
+// cannot overlap, exactly-under-a-guard where one operand is a multiple of 2^j (the guard is the
+// other being below 2^j), and otherwise as a sound over-approximation (a fresh value within
+// the arithmetic bounds of the operation).
+func (s *Solver) defineBitop(x *term.Term) error {
+	w := x.S.W
+	def := func(expr string, ii intInfo) {
+		s.send(fmt.Sprintf("(define-fun t%d () Int %s)", x.ID, expr))
+		if ii.tz > w {
+			ii.tz = w
+		}
+		s.ints[x.ID] = ii
+	}
+	max := new(big.Int).Sub(pow2(w), bigOne)
+	a0, a1 := x.Args[0], x.Args[1]
+	if a0.IsConst() {
+		a0, a1 = a1, a0
+	}
+	rv, v := s.iref(a0), s.iinfo(a0)
+	if a1.IsConst() {
+		cu := a1.Val
+		switch x.Op {
+		case term.OpBvAnd:
+			e, ii := andConst(rv, v, cu, w)
+			def(e, ii)
+			return nil
+		case term.OpBvOr:
+			// v | c = (v & ^c) + c
+			rn, n := andConst(rv, v, ^cu&max.Uint64(), w)
+			c := new(big.Int).SetUint64(cu & max.Uint64())
+			def(fmt.Sprintf("(+ %s %s)", rn, c), intInfo{lo: new(big.Int).Add(n.lo, c), hi: new(big.Int).Add(n.hi, c), tz: min(n.tz, s.iinfo(a1).tz)})
+			return nil
+		case term.OpBvXor:
+			// v ^ c = (v & ^c) + (c - (v & c))
+			rn, n := andConst(rv, v, ^cu&max.Uint64(), w)
+			rp, pi := andConst(rv, v, cu&max.Uint64(), w)
+			c := new(big.Int).SetUint64(cu & max.Uint64())
+			def(fmt.Sprintf("(+ %s (- %s %s))", rn, c, rp), intInfo{lo: new(big.Int).Add(n.lo, new(big.Int).Sub(c, pi.hi)), hi: new(big.Int).Add(n.hi, new(big.Int).Sub(c, pi.lo))})
+			return nil
+		}
+	}
+	ra, a := s.iref(x.Args[0]), s.iinfo(x.Args[0])
+	rb, b := s.iref(x.Args[1]), s.iinfo(x.Args[1])
+	if w <= smallBitWidth {
+		ba, bb := bitsExpr(ra, w), bitsExpr(rb, w)
+		parts := make([]string, w)
+		for i := 0; i < w; i++ {
+			var c string
+			switch x.Op {
+			case term.OpBvAnd:
+				c = "(and " + ba[i] + " " + bb[i] + ")"
+			case term.OpBvOr:
+				c = "(or " + ba[i] + " " + bb[i] + ")"
+			default:
+				c = "(xor " + ba[i] + " " + bb[i] + ")"
+			}
+			parts[i] = fmt.Sprintf("(ite %s %s 0)", c, pow2(i))
+		}
+		hi := max
+		if x.Op == term.OpBvAnd {
+			hi = minBig(a.hi, b.hi)
+		}
+		def("(+ "+strings.Join(parts, " ")+")", intInfo{lo: bigZero, hi: hi, tz: min(a.tz, b.tz)})
+		return nil
+	}
+	// wide values
+	noOverlap := func(small, big_ intInfo) bool { return big_.tz > 0 && small.hi.Cmp(pow2(big_.tz)) < 0 }
+	switch x.Op {
+	case term.OpBvOr, term.OpBvXor:
+		sum := "(+ " + ra + " " + rb + ")"
+		slo, shi := new(big.Int).Add(a.lo, b.lo), new(big.Int).Add(a.hi, b.hi)
+		if noOverlap(a, b) || noOverlap(b, a) {
+			e, ii := wrap(sum, slo, shi, w)
+			ii.tz = min(a.tz, b.tz)
+			def(e, ii)
+			return nil
+		}
+		// approximation: or: max(a,b) <= r <= a+b; xor: 0 <= r <= a+b; exact under the no-overlap guard
+		s.send(fmt.Sprintf("(declare-const t%d_raw Int)", x.ID))
+		raw := fmt.Sprintf("t%d_raw", x.ID)
+		lower := "0"
+		if x.Op == term.OpBvOr {
+			lower = fmt.Sprintf("(ite (>= %s %s) %s %s)", ra, rb, ra, rb)
+		}
+		approx := fmt.Sprintf("(ite (and (<= %s %s) (<= %s %s) (<= %s %s)) %s %s)", lower, raw, raw, sum, raw, max, raw, lower)
+		if x.Op == term.OpBvXor {
+			approx = fmt.Sprintf("(ite (and (<= 0 %s) (<= %s %s) (<= %s %s)) %s 0)", raw, raw, sum, raw, max, raw)
+		}
+		expr := approx
+		if b.tz > 0 && b.tz < w {
+			expr = fmt.Sprintf("(ite (< %s %s) %s %s)", ra, pow2(b.tz), sum, expr)
+		}
+		if a.tz > 0 && a.tz < w {
+			expr = fmt.Sprintf("(ite (< %s %s) %s %s)", rb, pow2(a.tz), sum, expr)
+		}
+		s.Approx = true
+		s.approx[x.ID] = true
+		def(expr, intInfo{lo: bigZero, hi: minBig(shi, max), tz: min(a.tz, b.tz)})
+		return nil
+	}
+	// and of two wide symbolic values
+	if noOverlap(a, b) || noOverlap(b, a) {
+		def("0", intInfo{lo: bigZero, hi: bigZero, tz: w})
+		return nil
+	}
+	s.send(fmt.Sprintf("(declare-const t%d_raw Int)", x.ID))
+	raw := fmt.Sprintf("t%d_raw", x.ID)
+	expr := fmt.Sprintf("(ite (and (<= 0 %s) (<= %s %s) (<= %s %s)) %s 0)", raw, raw, ra, raw, rb, raw)
+	if b.tz > 0 && b.tz < w {
+		expr = fmt.Sprintf("(ite (< %s %s) 0 %s)", ra, pow2(b.tz), expr)
+	}
+	if a.tz > 0 && a.tz < w {
+		expr = fmt.Sprintf("(ite (< %s %s) 0 %s)", rb, pow2(a.tz), expr)
+	}
+	s.Approx = true
+	s.approx[x.ID] = true
+	def(expr, intInfo{lo: bigZero, hi: minBig(a.hi, b.hi), tz: maxInt(a.tz, b.tz)})
+	return nil
+}
+
+func maxInt(a, b int) int {
+	if a > b {
+		return a
+	}
+	return b
+}
+
+// andConst renders v & mask as the sum over the contiguous runs of the mask.
+func andConst(rv string, v intInfo, cu uint64, w int) (string, intInfo) {
+	var parts []string
+	hi := new(big.Int)
+	tz := -1
+	for j := 0; j < w; {
+		if cu>>uint(j)&1 == 0 {
+			j++
+			continue
+		}
+		k := 0
+		for j+k < w && cu>>uint(j+k)&1 == 1 {
+			k++
+		}
+		if tz < 0 {
+			tz = j
+		}
+		pj, pk := pow2(j), pow2(k)
+		if v.hi.Cmp(pj) >= 0 {
+			var e string
+			switch {
+			case j == 0 && v.hi.Cmp(pk) < 0:
+				e = rv
+			case j == 0:
+				e = fmt.Sprintf("(mod %s %s)", rv, pk)
+			case j+k >= w || v.hi.Cmp(pow2(j+k)) < 0:
+				e = fmt.Sprintf("(* %s (div %s %s))", pj, rv, pj)
+			default:
+				e = fmt.Sprintf("(* %s (mod (div %s %s) %s))", pj, rv, pj, pk)
+			}
+			parts = append(parts, e)
+			hi.Add(hi, new(big.Int).Mul(pj, new(big.Int).Sub(pk, bigOne)))
+		}
+		j += k
+	}
+	if tz < 0 {
+		tz = w
+	}
+	if v.tz > tz {
+		tz = v.tz
+	}
+	hi = minBig(hi, v.hi)
+	switch len(parts) {
+	case 0:
+		return "0", intInfo{lo: bigZero, hi: bigZero, tz: w}
+	case 1:
+		return parts[0], intInfo{lo: bigZero, hi: hi, tz: tz}
+	}
+	return "(+ " + strings.Join(parts, " ") + ")", intInfo{lo: bigZero, hi: hi, tz: tz}
 }
